@@ -1,6 +1,6 @@
 ------------------------------ MODULE MbiTrace ------------------------------
 (* TV form of C01.  One trace = one real image built by SPSDK for one (composition, abstract input).            *)
-(*   header trace : Build, ExpLen, ExpFlags, ExpW28, ExpLoad, ExpLayout [, ExpReloc]   (clause HeaderDescribes) *)
+(*   header trace : Build, ExpLen, ExpFlags, ExpW28, ExpLoad, ExpLayout [, ExpReloc] [, ExpManifest]  (HeaderDescribes) *)
 (*   parse trace  : Build, ParseOk, ParseApp, ParseTz, ParseWords, ParseKs, ParseReloc, ParseMisc   (RoundTrip) *)
 (*                  ReObj, ReCfg                                                      (clause ReExport)         *)
 (* Every number in an event was read from the emitted bytes / the parsed object by the harness (struct, byte    *)
@@ -56,6 +56,16 @@ TExpReloc == Is("ExpReloc") /\ Judge(
                /\ E.dstOk = TRUE
                /\ \A k \in 1..Len(x.relocs) : /\ E.ents[k] = <<ImgOff(k), x.relocs[k], 1>>          \* source offset, exact size, LOAD flag
                                               /\ E.imgAt[k] = ImgOff(k) + Shift(x))
+\* the image manifest (certificate block v2.1 types): where it is, what it declares
+DigCode == CASE DigestLen(x) = 32 -> 1 [] DigestLen(x) = 48 -> 2 [] DigestLen(x) = 64 -> 3 [] OTHER -> 0
+TExpManifest == Is("ExpManifest") /\ Judge(
+               /\ Manifest # "none"
+               /\ E.at = I.off + x.certLen
+               /\ E.fw = x.fwVer
+               /\ E.total = MANHDR + TzLen(x) + (IF Manifest = "crc" THEN 4 ELSE 0)
+               /\ E.flags = (IF DigestLen(x) > 0 THEN <<32768, DigCode>> ELSE <<0, 0>>)
+               /\ (Manifest = "crc" => E.crcOk = TRUE)
+               /\ (DigestLen(x) > 0 => E.digestOk = TRUE))
 \* ---- RoundTrip on the parsed object
 TParseOk  == Is("ParseOk") /\ Judge(E.ok = TRUE)
 TParseApp == Is("ParseApp") /\ Judge(
@@ -73,7 +83,7 @@ TParseMisc == Is("ParseMisc") /\ Judge(
 DiffsInside(ranges) == \A k \in 1..Len(E.diffs) : Inside(E.diffs[k], ranges)
 TReObj == Is("ReObj") /\ JudgeIfIntact(E.ok = TRUE /\ E.len = Sum(S) /\ DiffsInside(SigRange(x)))
 TReCfg == Is("ReCfg") /\ JudgeIfIntact(E.ok = TRUE /\ E.len = Sum(S) /\ DiffsInside(SigRange(x) \cup IskRange(x)))
-TNext == TBuild \/ TExpLen \/ TExpFlags \/ TExpW28 \/ TExpLoad \/ TExpLayout \/ TExpReloc
+TNext == TBuild \/ TExpLen \/ TExpFlags \/ TExpW28 \/ TExpLoad \/ TExpLayout \/ TExpReloc \/ TExpManifest
          \/ TParseOk \/ TParseApp \/ TParseTz \/ TParseWords \/ TParseKs \/ TParseReloc \/ TParseMisc \/ TReObj \/ TReCfg
 Constr == IF TLCGet(tid) < l THEN TLCSet(tid, l) ELSE TRUE
 Post == \A i \in 1..Len(Traces) :
